@@ -36,7 +36,8 @@ def chainOfJson (j : Json) : Except String (List (Config Float)) := do
     let n ← n.getStr?
     if n == "empty" then pure []
     else match AF.WidthCfg.Generated.named.lookup n with
-      | some c => pure c
+      -- sorted once per request (`callCfg_presorted`: same answers; sorting a sorted table is linear)
+      | some c => pure (sortByLen c)
       | none => throw s!"unknown configuration table {n}"
 
 def placeOfJson (j : Json) : Except String (Place Float) := do
